@@ -16,8 +16,11 @@ import traceback
 import numpy as np
 import z3
 
-VERIF = os.path.dirname(os.path.dirname(os.path.abspath(__file__)))
-KNOWN_FILE = os.path.join(VERIF, "known_findings.json")
+_HERE = os.path.dirname(os.path.dirname(os.path.abspath(__file__)))
+# VERIF_OUT: where evidence/ and replays/ are written (default: /verif itself; seeded-change experiments point it elsewhere so
+# that the committed evidence always comes from runs against /repo)
+VERIF = os.environ.get("VERIF_OUT", _HERE)
+KNOWN_FILE = os.path.join(_HERE, "known_findings.json")
 
 
 def load_known():
